@@ -145,6 +145,17 @@ func evalVal(v ssa.Value, env map[ssa.Value]constant.Value, depth int) (constant
 		}
 	case *ssa.Call:
 		cal := x.Call.StaticCallee()
+		if cal == nil && len(x.Call.Args) == 1 {
+			// a predicate handed in as a parameter: every caller passes a
+			// function that can be evaluated, and they agree
+			if prm, ok := x.Call.Value.(*ssa.Parameter); ok && depth < 3 {
+				a, ok := evalVal(x.Call.Args[0], env, depth)
+				if !ok {
+					return nil, false
+				}
+				return evalPredicateParam(prm, a, depth)
+			}
+		}
 		if cal == nil || len(x.Call.Args) != 1 {
 			return nil, false
 		}
@@ -166,6 +177,74 @@ func evalVal(v ssa.Value, env map[ssa.Value]constant.Value, depth int) (constant
 		}
 	}
 	return nil, false
+}
+
+// evalPredicateParam: prm is a parameter of function type; the value of
+// prm(arg) when every static call of the enclosing function passes a named
+// function of the lexer package for it and all of them give the same answer.
+func evalPredicateParam(prm *ssa.Parameter, arg constant.Value, depth int) (constant.Value, bool) {
+	fn := prm.Parent()
+	idx := -1
+	for i, q := range fn.Params {
+		if q == prm {
+			idx = i
+		}
+	}
+	if idx < 0 || fn.Pkg == nil {
+		return nil, false
+	}
+	var out constant.Value
+	sites := 0
+	for _, m := range fn.Pkg.Members {
+		mf, ok := m.(*ssa.Function)
+		var cands []*ssa.Function
+		if ok {
+			cands = append(cands, mf)
+			cands = append(cands, mf.AnonFuncs...)
+		}
+		if tp, ok := m.(*ssa.Type); ok {
+			for _, recv := range []types.Type{tp.Type(), types.NewPointer(tp.Type())} {
+				ms := fn.Prog.MethodSets.MethodSet(recv)
+				for i := 0; i < ms.Len(); i++ {
+					if g := fn.Prog.MethodValue(ms.At(i)); g != nil && g.Pkg == fn.Pkg {
+						cands = append(cands, g)
+						cands = append(cands, g.AnonFuncs...)
+					}
+				}
+			}
+		}
+		for _, g := range cands {
+			for _, b := range g.Blocks {
+				for _, ins := range b.Instrs {
+					c, ok := staticCalleeIs(ins, fn)
+					if !ok || idx >= len(c.Call.Args) {
+						continue
+					}
+					sites++
+					v := c.Call.Args[idx]
+					if ct, ok := v.(*ssa.ChangeType); ok {
+						v = ct.X
+					}
+					pf, ok := v.(*ssa.Function)
+					if !ok {
+						return nil, false
+					}
+					r, ok := evalPure(pf, arg, depth+1)
+					if !ok {
+						return nil, false
+					}
+					if out != nil && !constant.Compare(out, token.EQL, r) {
+						return nil, false
+					}
+					out = r
+				}
+			}
+		}
+	}
+	if sites == 0 || out == nil {
+		return nil, false
+	}
+	return out, true
 }
 
 // evalAtSentinel evaluates a loop condition with every load of Lexer.ch
